@@ -767,6 +767,27 @@ def gen_steps_shrink(rng, sid, big, t, k):
     c["x"], c["y"] = gen_data(rng, n, d, k, "blobs" if style == "zero" else rng.choice(["int", "dyadic"]))
     return c
 
+def gen_solve(rng, sid, big, t, k):
+    """whole runs of the real QpSolver::solve (bounded by maxIterations) against the model loop mc_solve_steps"""
+    n = rng.randint(max(k + 1, 4), 8 if not big else 11); d = rng.randint(1, 2)
+    c = {"id": sid, "type": t, "k": k, "n": n, "d": d, "kernel": rng.choice(["lin", "rbf"]), "C": rng.choice([0.25, 1.0, 8.0, 100.0]),
+         "eps": rng.choice([1e-2, 1e-3]), "maxiter": rng.choice([5, 40, 150, 400]), "shrinking": rng.choice([0, 1, 1])}
+    c["gamma"] = rng.choice([0.25, 1.0]) if c["kernel"] == "rbf" else 0.0
+    c["x"], c["y"] = gen_data(rng, n, d, k, rng.choice(["int", "dyadic", "blobs"]))
+    return c
+
+def solve_line(c):
+    return " ".join(["SOLVE", c["id"], c["type"], hx(c["C"]), hx(c["eps"]), str(c["maxiter"]), str(c["shrinking"]), c["kernel"], hx(c["gamma"]),
+                     str(c["n"]), str(c["d"])] + data_tokens(c))
+
+def parse_solve_line(l):
+    t = l.split(); pf = lambda x: fh(x) if "x" in x.lower() else float(x)
+    c = {"id": t[1], "type": t[2], "C": pf(t[3]), "eps": pf(t[4]), "maxiter": int(t[5]), "shrinking": int(t[6]), "kernel": t[7], "gamma": pf(t[8]), "n": int(t[9]), "d": int(t[10])}
+    n, d = c["n"], c["d"]; p = 11
+    c["y"] = [int(v) for v in t[p:p + n]]; p += n
+    c["x"] = [[pf(t[p + i * d + j]) for j in range(d)] for i in range(n)]; c["k"] = max(c["y"]) + 1
+    return c
+
 def steps_line(c):
     return " ".join(["STEPS", c["id"], c["type"], hx(c["C"]), hx(c["eps"]), str(c["sp"]), str(c["nsteps"]), str(c["rand"]), str(c["seed"]),
                      c["kernel"], hx(c["gamma"]), str(c["n"]), str(c["d"])] + data_tokens(c))
@@ -971,19 +992,54 @@ def monitor_lin(line):
 # state model (C16State.v): full positional states of the implementation, one model operation at a time
 
 def split_state_trace(out):
-    """-> (model input lines, [(op line, expected MS line)], [(MS line, MK line)])"""
-    inp = []; pairs = []; kpos = []; pend = None; lastms = None
+    """-> (model input lines, [(op line, expected line)], [(MS line, MK line)], [(MS line, SE line, next MO line or None)])"""
+    inp = []; pairs = []; kpos = []; sels = []; pend = None; lastms = None
     for l in out:
         h = l[:3]
-        if h in ("MH ", "MI ", "MO "):
+        if h in ("MH ", "MI ", "MO ", "MV "):
             inp.append(l)
             if h != "MH ": pend = l
+            if h == "MO " and sels and sels[-1][2] is None and sels[-1][0] is lastms: sels[-1] = (sels[-1][0], sels[-1][1], l)
         elif h == "MS ":
+            if pend is not None and pend.startswith("MV "): pairs.append((pend, l)); pend = "SV"; lastms = l; continue     # final state of solve(): completed by the SV line
             inp.append(l); lastms = l
             if pend is not None: pairs.append((pend, l)); pend = None
+        elif h == "SV " and pend == "SV":
+            t = l.split(); op, ms = pairs[-1]; pairs[-1] = (op, ms + " X %s %s" % (t[2], t[3])); pend = None
+        elif h in ("SE ", "KK "):
+            a, b = l.split(" > "); inp.append(a); pairs.append((a, "V " + b))
+            if h == "SE " and lastms is not None: sels.append((lastms, l, None))
         elif h == "MK " and lastms is not None:
             kpos.append((lastms, l))
-    return inp, pairs, kpos
+    return inp, pairs, kpos, sels
+
+def monitor_select(c, ms, se, mo, simplex):
+    """spec monitor on one selectWorkingSet call of the implementation (independent of the model): the returned value is
+    the largest KKT violation over the ACTIVE variables (documented measure), the working set is active"""
+    n, k = c["n"], c["k"]; P = cardP(c["type"], k); C = c["C"]
+    s = parse_MS(ms, n, P)
+    r = se.split(" > ")[1].split(); acc = fh(r[0]); i, j = int(r[1]), int(r[2])
+    if simplex:
+        mg = 0.0; msg = 0.0
+        for e in range(s["actex"]):
+            up = -1e100; down = 1e100
+            for b in range(s["eact"][e]):
+                v = s["eavar"][e][b]; g = s["grad"][v]
+                if g > up: up = g
+                if s["alpha"][v] > 0.0 and g < down: down = g
+            if s["evsum"][e] < C: mg = max(mg, up)
+            else: msg = max(msg, up - down)
+            mg = max(mg, -down)
+        want = max(mg, msg)
+    else:
+        want = 0.0
+        for a in range(s["actvar"]):
+            g = s["grad"][a]
+            if s["alpha"][a] < C: want = max(want, g)
+            if s["alpha"][a] > 0.0: want = max(want, -g)
+    if acc != want: return "selectWorkingSet returned %r, the largest KKT violation over the active variables is %r" % (acc, want)
+    if acc > 0.0 and not (i < s["actvar"] and j < s["actvar"]): return "selectWorkingSet picked (%d,%d) with only %d active variables (violation %r)" % (i, j, s["actvar"], acc)
+    return None
 
 def parse_MS(l, n, P):
     t = l.split(); nv = n * P
@@ -1073,7 +1129,7 @@ def main():
     R = Runner(exe, tmpd, tl=(40.0 if big else 8.0))
     rng = ck.rng
 
-    free_lines = []; step_cfgs = []; groups = []; lin_cmds = []
+    free_lines = []; step_cfgs = []; groups = []; lin_cmds = []; solve_cfgs = []
     if ck.replay:
         for l in open(ck.replay).read().split("\n"):
             if not l or l.startswith("#"): continue
@@ -1081,6 +1137,7 @@ def main():
             if h in ("EDGE", "BOX", "TRI", "GAIN", "LINE", "SPARSE"): free_lines.append(l)
             elif h == "STEPS": step_cfgs.append(parse_steps_line(l))
             elif h in ("LSTEPS", "BLSTEPS"): lin_cmds.append(l)
+            elif h == "SOLVE": solve_cfgs.append(parse_solve_line(l))
             elif h == "GROUP": groups.append(json.loads(l[6:]))
     else:
         free_lines = gen_free(rng, big)
@@ -1097,6 +1154,8 @@ def main():
             for t in [x for x in TYPES if x != "OVA"]:
                 for k in (2, 3, 4, 5):
                     step_cfgs.append(gen_steps_shrink(rng, "h%d" % si, big, t, k)); si += 1
+        for rep in range(8 if big else 2):                  # whole solver runs: every formulation
+            for t in [x for x in TYPES if x != "OVA"]: solve_cfgs.append(gen_solve(rng, "v%d" % len(solve_cfgs), big, t, rng.choice([2, 3, 3, 4, 5])))
         for rep in range(12 if big else 3):                 # linear solvers: every formulation
             for t in LKINDS: lin_cmds.append(gen_lsteps(rng, "l%d" % len(lin_cmds), t, big))
         for i in range(60 if big else 16): lin_cmds.append(gen_blsteps(rng, "b%d" % i, big))
@@ -1143,8 +1202,9 @@ def main():
     # ---- 3. step-by-step runs
     step_reported = set()
     nsteps = 0; step_runs = 0; dis_steps = []; mon_steps = 0; branch = {"one": 0, "triangle": 0, "box": 0}; shrunk_states = 0
-    if step_cfgs:
-        lines = [[steps_line(c)] for c in step_cfgs]
+    if solve_cfgs and not step_cfgs: step_cfgs = []
+    if step_cfgs or solve_cfgs:
+        lines = [[steps_line(c)] for c in step_cfgs] + [[solve_line(c)] for c in solve_cfgs]
         open(os.path.join(tmpd, "steps_in.txt"), "w").write("\n".join(l[0] for l in lines) + "\n")
         rc, outtxt, err = sh([exe, os.path.join(tmpd, "steps_in.txt")], timeout=1500, env=ENV1)
         byid = {}; cur = None
@@ -1200,11 +1260,16 @@ def main():
             else:
                 for inp, exp, rawl in steps: model_in.append(inp); owner.append((c, exp, rawl))
                 # state model: spec monitor on every positional state, then the model operations
-                sinp, spairs, skpos = split_state_trace(out)
+                sinp, spairs, skpos, ssels = split_state_trace(out)
                 msg = None
                 for opl, ms in spairs:
+                    if not ms.startswith("MS "): continue
                     msg = monitor_tables(c, ms, nm, K, c["type"] in SIMPLEX); st_tables += 1
                     if msg: msg = "after '%s': %s" % (" ".join(opl.split()[2:5]), msg); break
+                if not msg:
+                    for ms, se, mo in ssels:
+                        msg = monitor_select(c, ms, se, mo, c["type"] in SIMPLEX)
+                        if msg: break
                 if not msg:
                     for ms, mk in skpos:
                         msg = monitor_kpos(c, ms, mk, K)
@@ -1220,23 +1285,47 @@ def main():
                                      "spec monitor fails on the implementation (step-driven %s, variable/example tables): %s" % ("QpMcSimplexDecomp" if c["type"] in SIMPLEX else "QpMcBoxDecomp", msg))
                 else:
                     st_in += sinp; st_pairs += [(c, opl, ms) for opl, ms in spairs]
+        for c in solve_cfgs:                                   # whole runs of QpSolver::solve
+            out = byid.get(c["id"])
+            if out is None or not any(l.startswith("SEND ") for l in out):
+                cf = ck.write_replay("solve_%s.txt" % c["id"], solve_line(c) + "\n")
+                ck.violation("solve:crash:%s" % c["type"], {"case_file": cf, "case": solve_line(c), "replay_cmd": "python3 tools/c16.py --replay " + cf},
+                             "implementation crashed/stopped/threw in QpSolver::solve run %s: %s" % (c["id"], " | ".join(l for l in (out or []) if l.startswith(("EXC", "STDEXC")))[:300])); st_mon += 1; continue
+            nm = R.num(c["type"], c["k"], "d"); K = kmat(c, c["x"])
+            sinp, spairs, skpos, ssels = split_state_trace(out)
+            msg = None
+            for opl, ms in spairs:
+                msg = monitor_tables(c, ms.split(" X ")[0], nm, K, c["type"] in SIMPLEX); st_tables += 1
+                if not msg and " X accuracy" in ms:
+                    sv = [l for l in out if l.startswith("SV ")][0].split()
+                    if not fh(sv[5]) < c["eps"]: msg = "QpSolver::solve reports QpAccuracyReached but checkKKT() over all variables is %r >= eps=%r" % (fh(sv[5]), c["eps"])
+                    elif int(ms.split()[2]) != c["n"] * cardP(c["type"], c["k"]): msg = "QpSolver::solve returned at accuracy with shrunk variables"
+                if msg: break
+            if msg:
+                st_mon += 1
+                cf = ck.write_replay("solve_%s.txt" % c["id"], "# %s\n%s\n" % (msg, solve_line(c)))
+                ck.violation("solve:%s:%s" % ("tables" if "KKT" not in msg else "exit", c["type"]), {"case_file": cf, "case": solve_line(c), "observed": msg, "replay_cmd": "python3 tools/c16.py --replay " + cf},
+                             "spec monitor fails on the implementation (QpSolver::solve on %s): %s" % ("QpMcSimplexDecomp" if c["type"] in SIMPLEX else "QpMcBoxDecomp", msg))
+            else:
+                st_in += sinp; st_pairs += [(dict(c, solve=1), opl, ms) for opl, ms in spairs]
         st_dis = []
         if st_in:
             rc3, sout, serr = run_lines(model, st_in, os.path.join(tmpd, "state_model_in.txt"), timeout=1500)
             if rc3 != 0 or len(sout) != len(st_pairs): raise RuntimeError("model driver failed on the state lines (%d outputs for %d operations): %s" % (len(sout), len(st_pairs), serr[-500:]))
             for (c, opl, ms), got in zip(st_pairs, sout):
-                kind = opl.split()[2] if opl.startswith("MO ") else "init"
+                kind = opl.split()[2] if opl.startswith("MO ") else {"MI ": "init", "SE ": "select", "KK ": "checkKKT", "MV ": "solve"}.get(opl[:3], "init")
                 st_ops[kind] = st_ops.get(kind, 0) + 1
                 d = ms_diff(ms, got)
                 if d: st_dis.append((c, opl, d))
         if st_dis and not mon_steps and not st_mon:
             c, opl, d = st_dis[0]
-            cf = ck.write_replay("state_%s.txt" % c["id"], "# %s : %s\n%s\n" % (" ".join(opl.split()[:5]), d, steps_line(c)))
-            ck.violation("correspondence:state", {"case_file": cf, "case": steps_line(c), "operation": opl[:200], "difference": d,
+            cline = solve_line(c) if c.get("solve") else steps_line(c)
+            cf = ck.write_replay("state_%s.txt" % c["id"], "# %s : %s\n%s\n" % (" ".join(opl.split()[:5]), d, cline))
+            ck.violation("correspondence:state", {"case_file": cf, "case": cline, "operation": opl[:200], "difference": d,
                                             "broken": "correspondence C16State (mstep / init_state) vs QpMcBoxDecomp / QpMcSimplexDecomp", "replay_cmd": "python3 tools/c16.py --replay " + cf},
                          "correspondence C16State.mstep vs the real %s no longer checks (%d operations differ, first: %s: %s); the spec monitors pass on every explored input"
                          % ("QpMcSimplexDecomp" if c["type"] in SIMPLEX else "QpMcBoxDecomp", len(st_dis), " ".join(opl.split()[:5]), d), no_input=True)
-        ck.oblige("state model C16State (gradient, tables, shrink/unshrink, addDeltaLinear, constructor) vs the real solvers, one operation at a time from the implementation's own state: %d operations %s; table monitor on %d states"
+        ck.oblige("state model C16State + C16Select (gradient, tables, shrink/unshrink, addDeltaLinear, constructor, selectWorkingSet, checkKKT, whole QpSolver::solve runs) vs the real solvers, one operation at a time from the implementation's own state: %d operations %s; table monitor on %d states"
                   % (len(st_pairs), st_ops, st_tables), not st_dis and not st_mon, "" if not (st_dis or st_mon) else "%d differing operations, %d monitor failures" % (len(st_dis), st_mon))
         if model_in:
             rc2, mout, merr = run_lines(model, model_in, os.path.join(tmpd, "steps_model_in.txt"))
